@@ -1,20 +1,18 @@
 #!/bin/sh
 # tools/eval_seed.sh <seed dir containing patch.diff> <property id> [more property ids ...]
-# 1. scratch worktree: patch applies, builds, existing tests pass
-# 2. apply to /repo, run the quick checks of the given properties, undo
+# scratch worktree of /repo HEAD with the change applied (never /repo itself): builds, existing tests pass,
+# then the quick checks of the given properties run against it (VERIF_REPO) with evidence/replays going to a
+# scratch directory (VERIF_OUT), so /repo and /verif/evidence stay untouched.
 set -u
 dir=$1; shift
 export GOFLAGS=-mod=mod GOPROXY=off GOSUMDB=off GOTOOLCHAIN=local
 sv=$(mktemp -d /tmp/sv-XXXXXX)
 git -C /repo worktree add -q --detach "$sv/wt" HEAD || exit 2
 if ! git -C "$sv/wt" apply "$dir/patch.diff"; then echo "PATCH DOES NOT APPLY"; git -C /repo worktree remove --force "$sv/wt"; rm -rf "$sv"; exit 2; fi
-(cd "$sv/wt" && go build ./... && go test -vet=off -count=1 ./... 2>&1 | grep -v "no test files" | grep -v "^ok" | head -5)
+(cd "$sv/wt" && go build ./... ) || echo "BUILD FAILS"
 echo "existing-tests: $(cd "$sv/wt" && go test -vet=off -count=1 ./... 2>&1 | grep -c '^FAIL\|^---') failures"
-git -C /repo worktree remove --force "$sv/wt"; rm -rf "$sv"
-git -C /repo apply "$dir/patch.diff" || exit 2
 for id in "$@"; do
-  /verif/bin/check "$id" --tier quick > /tmp/seed-$id.log 2>&1
-  echo "check $id rc=$? : $(grep -c '^VIOLATION' /tmp/seed-$id.log) violations; $(grep '^VIOLATION' -A1 /tmp/seed-$id.log | grep -v '^VIOLATION' | head -1 | cut -c1-260)"
+  VERIF_REPO="$sv/wt" VERIF_OUT="$sv/out" VERIF_SCRATCH_BASE="$sv" /verif/bin/check "$id" --tier ${TIER:-quick} > "$sv/seed-$id.log" 2>&1
+  echo "check $id rc=$? : $(grep -c '^VIOLATION' "$sv/seed-$id.log") violations; $(grep '^VIOLATION' -A1 "$sv/seed-$id.log" | grep -v '^VIOLATION' | head -1 | cut -c1-260)"
 done
-git -C /repo checkout -- .
-git -C /repo status --short | head -3
+git -C /repo worktree remove --force "$sv/wt"; rm -rf "$sv"
